@@ -159,11 +159,30 @@ func addScrubFieldsToSelectionSet(ctx *PlanningContext, selectionSet ast.Selecti
 func addSelectionSetToSanitizedResult(s ast.SelectionSet, ss ...ast.Selection) ast.SelectionSet {
 	ss = lo.Filter(ss, func(sel ast.Selection, i int) bool {
 		f, ok := sel.(*ast.Field)
-		if ok && selectionSetHasFieldNamed(s, f.Alias) {
+		if ok && selectionSetHasFieldAliased(s, fieldResponseKey(f)) {
 			return false
 		}
 		return true
 
 	})
 	return append(s, ss...)
+}
+
+// selectionSetHasFieldAliased reports whether ss already contains a field with the given response key
+func selectionSetHasFieldAliased(ss []ast.Selection, alias string) bool {
+	for _, selection := range ss {
+		field, ok := selection.(*ast.Field)
+		if ok && fieldResponseKey(field) == alias {
+			return true
+		}
+	}
+	return false
+}
+
+// fieldResponseKey returns the key under which the field appears in the response
+func fieldResponseKey(f *ast.Field) string {
+	if f.Alias != "" {
+		return f.Alias
+	}
+	return f.Name
 }
